@@ -163,7 +163,58 @@ def registry(cid, tier='thorough'):
     reg.add(Contract(KEY + '.__init__', params={'kwargs': '|'.join(shapes)},
                      raises={'TypeError': ('iff', unknown_kw), 'ValueError': ('iff', 'not %s and disj(%s)' % (unknown_kw, ', '.join(refuse)))},
                      ensures=ens, modifies=['self._d', 'self._seed', 'self._point', 'self._curve', 'self.curve', 'self._prefix'],
+                     sets={'self._point': PTK, 'self._seed': S},       # call sites: exactly the objects passed in (ensures `point`, `seed`)
                      options={'assume_valid': False}))
+    # ------------------------------------------------------------------------------------------------ construct (C05)
+    # on normal return the key satisfies the invariant of its type (key_valid): scalar in [1, order-1] or correctly decoded seed,
+    # public point = what the point constructor accepted for the given coordinates, and -- for ALL curve families -- equal to d*G
+    # when a private part is given; every other input is refused with ValueError (TypeError for the undocumented keyword `point`)
+    n = SK.curve_bytes(cid)
+    mont = cid in (8, 9)
+    c_ = 'curve:const:%r' % nm[0]
+    XY = 'point_x:int, point_y:int'
+    cs = ['dict(%s, d:int)' % c_, 'dict(%s, seed:bytes)' % c_, 'dict(%s, %s)' % (c_, XY), 'dict(%s, d:int, %s)' % (c_, XY), 'dict(%s, seed:bytes, %s)' % (c_, XY),
+          'dict(%s, point_x:int)' % c_, 'dict(%s, d:int, point_x:int)' % c_, 'dict(%s, seed:bytes, point_x:int)' % c_,
+          'dict(%s, point_x:%s, point_y:%s)' % (c_, OINT, OINT), 'dict(%s, seed:bytes, point_x:%s)' % (c_, OINT),
+          'dict(%s, point_x:none, point_y:none, d:int)' % c_, 'dict(%s, point:%s)' % (c_, OPT), 'dict(%s, d:int, seed:bytes)' % c_, 'dict(%s)' % c_,
+          'dict(curve:str, d:int)']
+    for n_ in nm[1:]:
+        cs += ['dict(curve:const:%r, d:int)' % n_, 'dict(curve:const:%r, seed:bytes)' % n_]
+    PX, PY = 'kwargs.get("point_x")', 'kwargs.get("point_y")'
+    if mont:
+        given = '%s is not None' % PX
+        coords_bad = '(%s and not (0 <= spec.keys.ival(%s) and spec.keys.ival(%s) < pow2(%d)))' % (given, PX, PX, 8 * n)
+        Qgiven = '(spec.keys.ival(%s) %% %d)' % (PX, SK.CURVE_P[cid])
+        dG = mul_G(cid, 'spec.keys.scalar_of_seed(%d, %s)' % (cid, S))
+        Qfinal = '(%s if %s else %s)' % (Qgiven, given, dG)
+        invalid = '(%s == -1 or spec.keys.low_order_u(%d, %s))' % (Qfinal, cid, Qfinal)
+        mismatch = '(%s is not None and %s and (%s == -1 or %s != spec.keys.ival(%s)))' % (S, given, dG, dG, PX)
+    else:
+        given = '(%s is not None and %s is not None)' % (PX, PY)
+        PXY = 'spec.ecgroup.pt(spec.keys.ival(%s), spec.keys.ival(%s))' % (PX, PY)
+        coords_bad = '(%s and not conj(0 <= spec.keys.ival(%s), 0 <= spec.keys.ival(%s), spec.keys.ival(%s) < pow2(%d), spec.keys.ival(%s) < pow2(%d), ' \
+                     'spec.ecgroup.valid(%d, %s)))' % (given, PX, PY, PX, 8 * n, PY, 8 * n, cid, PXY)
+        scalar = 'spec.keys.ival(%s)' % D if cid <= 5 else 'spec.keys.scalar_of_seed(%d, %s)' % (cid, S)
+        priv = D if cid <= 5 else S
+        mismatch = '(%s is not None and %s and %s != %s)' % (priv, given, mul_G(cid, scalar), PXY)
+        Qgiven = PXY
+    key_refuse = ['(%s is None and %s is None and not %s)' % (D, S, given), '(%s is not None and %s is not None)' % (D, S)]
+    if cid <= 5:
+        key_refuse += ['%s is not None' % S, '(%s is not None and not (1 <= spec.keys.ival(%s) and spec.keys.ival(%s) < %d))' % (D, D, D, order)]
+    else:
+        key_refuse += ['%s is not None' % D, '(%s is not None and len(%s) != %d)' % (S, S, SK.seed_len(cid))]
+    # the conditions are tested in this order by the code; each later one is meaningful only when the earlier ones are false
+    conds = ['kwargs.get("curve") not in %r' % (EC.ALL_NAMES,), coords_bad] + key_refuse + ([invalid] if mont else []) + [mismatch]
+    refuses = ' or '.join(conds)
+    reg.add(Contract(K + 'construct', params={'kwargs': '|'.join(cs)}, result=OKEY,
+                     raises={'TypeError': ('iff', '"point" in kwargs'), 'ValueError': ('iff', '"point" not in kwargs and (%s)' % refuses)},
+                     ensures={'valid': 'valid(result)',
+                              'public': 'old(%s) ==> (result._point is not None and result._point._point._raw_pointer.%s == old(%s))' % (given, gf, Qgiven),
+                              'no_public': 'not old(%s) ==> result._point is None' % given if not mont else 'True',
+                              'private': '(result._d is None) == (%s is None and %s is None)' % (D, S),
+                              'seed': 'result._seed == %s' % S},
+                     modifies=['kwargs'], inline=[KEY + '.pointQ', KEY + '.d', KEY + '.seed', KEY + '.has_private'],
+                     opaque=(['spec.keys.low_order_u'] if False else [])))
     return finish(reg)
 
 
@@ -178,6 +229,54 @@ def finish(reg):
     return reg
 
 
+# ---------------------------------------------------------------------------------------------------- curve loaders, deny lists (C05)
+H = 'spec.keys_harness.'
+LOADERS = {1: 'Crypto.PublicKey._nist_ecc.p192_curve', 2: 'Crypto.PublicKey._nist_ecc.p224_curve', 3: 'Crypto.PublicKey._nist_ecc.p256_curve',
+           4: 'Crypto.PublicKey._nist_ecc.p384_curve', 5: 'Crypto.PublicKey._nist_ecc.p521_curve',
+           6: 'Crypto.PublicKey._edwards.ed25519_curve', 7: 'Crypto.PublicKey._edwards.ed448_curve',
+           8: H + 'validate_x25519', 9: H + 'validate_x448'}
+
+
+def record_clauses(cid):
+    """the record a loader returns carries exactly the parameters of the standard (spec.keys tables)"""
+    e = {'p': 'result.p._value == %d' % SK.CURVE_P[cid], 'order': 'result.order._value == %d' % SK.CURVE_ORDER[cid],
+         'Gx': 'result.Gx._value == %d' % SK.CURVE_GX[cid], 'bits': 'result.modulus_bits == %d' % SK.CURVE_BITS[cid],
+         'oid': 'result.oid == %r' % SK.CURVE_OID[cid], 'canonical': 'result.canonical == %r' % SK.CURVE_CANONICAL[cid],
+         'openssh': 'result.openssh == %r' % SK.CURVE_OPENSSH[cid] if SK.CURVE_OPENSSH[cid] else 'result.openssh is None',
+         'G_later': 'result.G is None'}
+    e['b'] = 'result.b._value == %d' % SK.CURVE_B[cid] if SK.CURVE_B[cid] is not None else 'result.b is None'
+    e['Gy'] = 'result.Gy._value == %d' % SK.CURVE_GY[cid] if SK.CURVE_GY[cid] is not None else 'result.Gy is None'
+    if cid <= 5:
+        # the native context is built from the same three numbers, as big-endian strings of the coordinate size
+        c = 'result.context._raw_pointer'
+        e['context'] = '%s.g_p == %d and %s.g_b == %d and %s.g_order == %d and %s.g_len == %d' % (
+            c, SK.CURVE_P[cid], c, SK.CURVE_B[cid], c, SK.CURVE_ORDER[cid], c, SK.curve_bytes(cid))
+        e['validate'] = 'result.validate is None'
+    elif cid in (6, 8):
+        e['context'] = 'result.context is None'
+    else:
+        e['context'] = 'result.context._raw_pointer.g_kind == %r' % ('ed448' if cid == 7 else 'curve448')
+    return e
+
+
+def loader_registry():
+    from .key_common import key_base_registry
+    reg = key_base_registry()
+    EC.add_number(reg)
+    rawapi.install_glue(reg)
+    EC.install_rawlibs(reg)
+    EC.install_random(reg)
+    reg.overrides['Crypto.Util._raw_api.null_pointer'] = None
+    reg.add(ClassContract(EC.CTX, fields={'g_cid': 'int'}, abstract=True))
+    for cid in (1, 2, 3, 4, 5, 6, 7):
+        reg.add(Contract(LOADERS[cid], params={}, raises={}, ensures=record_clauses(cid), modifies=[]))
+    for cid, low in ((8, 'spec.keys.X25519_LOW_ORDER'), (9, 'spec.keys.X448_LOW_ORDER')):
+        # C05: the deny list equals the set of low-order u values of the standard, non-canonical encodings included; infinity is refused
+        reg.add(Contract(LOADERS[cid], params={'x': 'int', 'inf': 'bool'},
+                         raises={'ValueError': ('iff', 'inf or x in %s' % low)}, ensures=record_clauses(cid), modifies=[]))
+    return reg
+
+
 def units(prop, tier):
     from vf.pyunit import pyvc_unit
     out = []
@@ -186,6 +285,10 @@ def units(prop, tier):
             out.append(pyvc_unit(prop, 'key.ecc.eq.%s' % EC.LABEL[cid], lambda cid=cid: registry(cid, tier),
                                  [KEY + '.has_private', KEY + '.pointQ', KEY + '.__eq__']))
     if prop == 'C05':
+        out.append(pyvc_unit(prop, 'key.ecc.curves.nist', loader_registry, [LOADERS[c] for c in (1, 2, 3, 4, 5)]))
+        out.append(pyvc_unit(prop, 'key.ecc.curves.edwards', loader_registry, [LOADERS[c] for c in (6, 7)]))
+        out.append(pyvc_unit(prop, 'key.ecc.validate.montgomery', loader_registry, [LOADERS[c] for c in (8, 9)]))
         for cid in EC.ALL_CIDS:
             out.append(pyvc_unit(prop, 'key.ecc.init.%s' % EC.LABEL[cid], lambda cid=cid: registry(cid, tier), [KEY + '.__init__'], weight=2))
+            out.append(pyvc_unit(prop, 'key.ecc.construct.%s' % EC.LABEL[cid], lambda cid=cid: registry(cid, tier), [K + 'construct'], weight=2))
     return out
